@@ -66,6 +66,8 @@ var catalogue = []shape{
 	// nested combinations
 	{`[for x in l : x == s ? p : q]`, kStr}, {`{a = [s]}.a[0]`, kStr}, {`o[s ? "a" : "b"]`, kBool}, {`l[s ? 0 : 1]`, kBool},
 	{`(s)`, kStr}, {`[s][0]`, kTup}, {`{a = s}.a.a`, kObj}, {`m[upper(s)]`, kStr},
+	// collections with null elements; attribute syntax on a map
+	{`mn[s]`, kStr}, {`ln[s]`, kNum}, {`mn[s] == null ? p : q`, kStr}, {`s.a`, kMap}, {`"${s.a}"`, kMap}, {`{k = s}.k.b`, kMap}, {`s[*].a`, kMap},
 }
 
 var catFn = function.New(&function.Spec{
@@ -209,6 +211,8 @@ func scopeU(s, u cty.Value) *hcl.EvalContext {
 			"l": cty.ListVal([]cty.Value{cty.StringVal("a"), cty.StringVal("y")}),
 			"m": cty.MapVal(map[string]cty.Value{"a": cty.StringVal("x"), "A": cty.StringVal("z")}),
 			"o": cty.ObjectVal(map[string]cty.Value{"a": cty.StringVal("x"), "b": cty.True}),
+			"mn": cty.MapVal(map[string]cty.Value{"a": cty.StringVal("x"), "b": cty.NullVal(cty.String)}),
+			"ln": cty.ListVal([]cty.Value{cty.StringVal("x"), cty.NullVal(cty.String)}),
 		},
 		Functions: funcs,
 	}
